@@ -608,6 +608,8 @@ class Plugin:
                 svc = svcs[owner[sid]] if rng.random() < 0.9 else rng.choice(svcs)
                 m = {"nt": "upnp:event", "nts": "upnp:propchange", "sid": sid, "hk": rng.choice(["dict", "ci"]),
                      "text": render_body(self._props(rng, svc, wild), rng.randrange(1 << 30))}
+                if m["hk"] == "ci":
+                    m["sp"] = rng.choice(["upper", "title", "lower"])
                 if wild:
                     q = rng.random()
                     if q < 0.08:
@@ -643,6 +645,26 @@ class Plugin:
                 steps.append(["resp", v, rc])
         return {"svcs": svcs, "steps": steps}
 
+    def _burst_case(self, rng):
+        """A publisher that has a lot to say before the SUBSCRIBE response arrives: 11..16 event messages for one SID
+        (their SEQ runs past 9), then the response."""
+        svcs = self._svcs(rng)
+        v = rng.randrange(len(svcs))
+        sid = rng.choice(["uuid:0", "uuid:AB-0"])
+        steps = [["start", v]]
+        hk = rng.choice(["dict", "ci"])
+        for _ in range(rng.randint(11, 16)):
+            m = {"nt": "upnp:event", "nts": "upnp:propchange", "sid": sid, "hk": hk,
+                 "text": render_body(self._props(rng, svcs[v], False), rng.randrange(1 << 30))}
+            if hk == "ci":
+                m["sp"] = rng.choice(["upper", "title", "lower"])
+            steps.append(["notify", m])
+        steps.append(["resp", v, ["resp", 200, sid, rng.choice(GOOD_TMO)]])
+        if rng.random() < 0.5:
+            steps.append(["notify", {"nt": "upnp:event", "nts": "upnp:propchange", "sid": sid, "hk": hk,
+                                     "text": render_body(self._props(rng, svcs[v], False), rng.randrange(1 << 30))}])
+        return {"svcs": svcs, "steps": steps}
+
     def generate(self, rng, tier):
         if tier == "thorough":
             cases = list(self._small_scope(4)) + list(self._small_words(5))
@@ -654,6 +676,8 @@ class Plugin:
             n_rand, n_wild = 500, 300
         for _ in range(n_rand):
             cases.append(self._random_case(rng, False))
+        for _ in range(n_rand // 25):
+            cases.append(self._burst_case(rng))
         for _ in range(n_wild):
             cases.append(self._random_case(rng, True))
         # the same histories with every first SUBSCRIBE of a service issued by the renewal fall-back of async_resubscribe
@@ -695,19 +719,27 @@ class Plugin:
         return found, done
 
     # ------------------------------------------------------------------ implementation
-    @staticmethod
-    def _headers(m):
+    _seq = {}
+
+    @classmethod
+    def _headers(cls, m):
         pairs = [("HOST", "192.168.1.2:8090"), ("CONTENT-TYPE", 'text/xml; charset="utf-8"')]
         for k, f in (("NT", "nt"), ("NTS", "nts"), ("SID", "sid")):
             if m.get(f) is not None:
                 pairs.append((k, m[f]))
-        pairs.append(("SEQ", "0"))
+        # the publisher counts its event messages per subscription, as GENA prescribes (0, 1, 2, ... 10, 11, ...)
+        n = cls._seq.get(m.get("sid"), 0)
+        cls._seq[m.get("sid")] = n + 1
+        pairs.append(("SEQ", str(n)))
         if m.get("hk") == "ci":
+            # what aiohttp hands to the handler: a case-insensitive multi-mapping; publishers spell the names as they like
             from multidict import CIMultiDict, CIMultiDictProxy
-            return CIMultiDictProxy(CIMultiDict(pairs))
+            sp = {"title": str.title, "lower": str.lower}.get(m.get("sp"), lambda x: x)
+            return CIMultiDictProxy(CIMultiDict([(sp(k), v) for k, v in pairs]))
         return dict(pairs)
 
     def run_impl(self, case):
+        type(self)._seq = {}
         env = _Env(case["svcs"])
         # via_renewal == "same_sid": the publisher forgets the earlier subscription and then grants the same SID string
         # again (a rebooted device with counter-style SIDs): the earlier subscription uses the SID the case's first
